@@ -236,6 +236,10 @@ func CheckC11(state *C11State) func(*Sim, *Step) *Violation {
 				return nil
 			}
 			rules, _ := c.App.TIBCKeeper.RoutingKeeper.GetRoutingRules(ctx)
+			if inForce, ok := s.RulesInForce(st.Chain); ok {
+				// the list the harness itself last saw accepted, not what the chain says it stores
+				rules = inForce
+			}
 			allowed := literalAllow(rules, p.SourceChain, p.DestinationChain, p.Port)
 			_, knowsDest := c.App.TIBCKeeper.ClientKeeper.GetClientState(ctx, p.DestinationChain)
 			truth := s.RecvTruth(st)
